@@ -56,7 +56,11 @@ class World:
     outcomes:   ("val", raw) | ("err", message, ext or None) | ("boom",)
     """
 
+    _epochs = [0]
+
     def __init__(self, schema_d, seed, mode):
+        World._epochs[0] += 1
+        self.epoch = World._epochs[0]          # one World per request: marks what this request's resolvers touched
         self.d = schema_d
         self.seed = seed
         self.mode = mode  # 0 typed, 1 adversarial
@@ -304,6 +308,50 @@ class WorldError(Exception):
     pass
 
 
+class ArgumentLeak(WorldError):
+    """a resolver received an argument object that a resolver of an EARLIER request had edited"""
+
+
+MUT = "__mut_"
+
+
+def _scan_marks(v, epoch, found):
+    """collect the epochs of the marks present in an argument value"""
+    if isinstance(v, list):
+        for x in v:
+            if isinstance(x, str) and x.startswith(MUT):
+                found.add(x)
+            else:
+                _scan_marks(x, epoch, found)
+    elif isinstance(v, dict):
+        for k, x in v.items():
+            if isinstance(k, str) and k.startswith(MUT):
+                found.add(k)
+            else:
+                _scan_marks(x, epoch, found)
+
+
+def _without_marks(v):
+    if isinstance(v, list):
+        return [_without_marks(x) for x in v if not (isinstance(x, str) and x.startswith(MUT))]
+    if isinstance(v, dict):
+        return {k: _without_marks(x) for k, x in v.items() if not (isinstance(k, str) and k.startswith(MUT))}
+    return v
+
+
+def _mark(v, mark):
+    """what a careless resolver does to its arguments: edit the lists / dicts it was given, in place"""
+    if isinstance(v, list):
+        for x in v:
+            _mark(x, mark)
+        if mark not in v:
+            v.append(mark)
+    elif isinstance(v, dict):
+        for k in list(v):
+            _mark(v[k], mark)
+        v[mark] = 1
+
+
 def canon_args(kwargs):
     return json.dumps(canon_value(kwargs), sort_keys=True, ensure_ascii=True, separators=(",", ":"))
 
@@ -322,16 +370,43 @@ def install_world(schema, holder):
 
     WErr = werr_class()
 
-    def resolve_type(value, ctx, info):
-        # what the default resolution does, as a user-supplied `resolve_type` (raises for RaisingTypename)
+    def typename_of(value):
         if isinstance(value, dict):
             return value.get("__typename__", None)
         return getattr(value, "__typename__", None)
 
-    # every other abstract type gets an explicit `resolve_type`; the rest keep the executor's default resolution
+    def resolve_type(value, ctx, info):
+        # what the default resolution does, as a user-supplied `resolve_type` (raises for RaisingTypename)
+        return typename_of(value)
+
+    def resolve_type_object(value, ctx, info):
+        # the ObjectType OBJECT of the executing schema instead of its name
+        name = typename_of(value)
+        return schema.types.get(name, name) if isinstance(name, str) else name
+
+    clones = []
+
+    def resolve_type_clone_object(value, ctx, info):
+        # the ObjectType object of ANOTHER schema object (a clone): mapped back by name (cf9f75a)
+        name = typename_of(value)
+        if not clones:
+            try:
+                clones.append(schema.clone())
+            except Exception:  # noqa
+                clones.append(schema)
+        return clones[0].types.get(name, name) if isinstance(name, str) else name
+
+    # abstract types get, by name: an explicit `resolve_type` returning the name / the type object / a clone's type
+    # object; the rest keep the executor's default resolution
     for t in schema.types.values():
-        if isinstance(t, (InterfaceType, UnionType)) and fnv(t.name) % 2 == 0:
-            t.resolve_type = resolve_type
+        if isinstance(t, (InterfaceType, UnionType)):
+            k = fnv(t.name) % 4
+            if k == 0:
+                t.resolve_type = resolve_type
+            elif k == 1:
+                t.resolve_type = resolve_type_object
+            elif k == 2:
+                t.resolve_type = resolve_type_clone_object
 
     def resolver(root, ctx, info, **args):
         holder.calls += 1
@@ -340,8 +415,21 @@ def install_world(schema, holder):
         if not set(args) <= declared:
             # fail loudly: keyword arguments this field does not declare (stale per-node caches would show up here)
             raise WorldError("undeclared keyword arguments %s for %s.%s" % (sorted(set(args) - declared), info.parent_type.name, info.field_definition.name))
+        # (1) arguments are this request's own objects: nothing an earlier request's resolver did to ITS arguments
+        #     (lists / dicts, e.g. schema default values) may arrive here
+        mark = "%s%d__" % (MUT, w.epoch)
+        found = set()
+        _scan_marks(args, w.epoch, found)
+        if found - {mark}:
+            raise ArgumentLeak("%s.%s received an argument edited by a resolver of an earlier request"
+                               % (info.parent_type.name, info.field_definition.name))
+        clean = _without_marks(args) if found else args
         o = w.outcome(info.parent_type.name, info.field_definition.name, ty_of(info.field_definition.type),
-                      info.path, canon_args(args))
+                      info.path, canon_args(clean))
+        _mark(args, mark)
+        # (2) the public look-ahead helper must not raise for a validated operation
+        if info.nodes[0].selection_set is not None:
+            info.selected_fields()
         salt = fnv("%d|%s" % (w.seed, "/".join(str(p) for p in info.path)))
         if o[0] == "err":
             # the error object may arrive with `path` / `nodes` ALREADY set (forwarded from upstream): the response
@@ -560,6 +648,8 @@ def run_impl(schema, document, variables, opname, validate=True):
     from py_gql.exc import (GraphQLSyntaxError, ValidationError, ExecutionError, VariableCoercionError)
     try:
         r = graphql_blocking(schema, document, variables=variables, operation_name=opname)
+    except ArgumentLeak:
+        return {"internal": "ArgumentLeakedFromEarlierRequest"}
     except WorldError:
         return {"internal": "unexpected"}
     except RecursionError:
